@@ -54,6 +54,54 @@ def alphabet(tier):
     return a
 
 
+def _expr(form):
+    return {
+        "const": C(0), "var": V("b"), "sum": S(V("a"), V("m")), "subconst": SUB("arr", C(1)), "subvar": SUB("arr", V("n")),
+        "subloop": SUB("<p>v", V("i")), "ifexpr": IF(CMP("<", V("a"), V("n")), V("b"), V("m")),
+        "min": ["min", [V("a"), V("m")]], "and": ["and", [CMP("<", V("a"), C(2)), CMP("<", V("b"), V("m"))]],
+        "or": ["or", [CMP("<", V("n"), C(2)), CMP("<", V("<state>y"), V("m"))]],
+        "call": ["call", V("<func>f"), [V("b")], []], "callkw": ["call", V("<func>f"), [V("m")], [["k", V("n")]]],
+        "pow": ["pow", V("<state>y"), C(2)], "quot": ["quot", V("b"), V("m")], "neg": ["prod", [C(-1), V("<p>q")]],
+        "statevar": V("<state>y"), "pvar": V("<p>q"), "cmp": CMP("<", V("<dt>"), V("m")),
+    }[form]
+
+
+def shape_calls(sh):
+    """Instantiate one StmtGen shape with the variable pool of this module (list of builder calls)."""
+    loops = {"none": [], "zero_to_var": [["i", C(0), V("n")]], "var_to_var": [["i", V("n"), V("m")]],
+             "two_dependent": [["i", C(0), V("n")], ["j", V("i"), V("m")]]}[sh["loops"]]
+    guard = {"none": None, "cmp": CMP("<", V("a"), V("b")),
+             "and": ["and", [CMP(">", V("<state>y"), C(0)), CMP("<", V("n"), C(3))]],
+             "statecmp": CMP("<", V("<p>q"), V("<dt>"))}[sh["guard"]]
+    k = sh["kind"]
+    if k == "assign":
+        lhs, sub = {"plain": ("a", None), "subconst": ("arr", [C(0)]), "subvar": ("arr", [V("n")]),
+                    "subloop": ("arr", [V("i")]), "subsum": ("arr", [S(V("i"), V("m"))]),
+                    "pvarsub": ("<p>v", [V("n")]), "statevar": ("<state>y", None)}[sh["lhs"]]
+        st = assign(lhs, _expr(sh["rhs"]), sub=sub, loops=loops)
+    elif k in ("acall0", "acall1", "acall2"):
+        kw = {"none": [], "var": [["k", V("n")]], "sum": [["k", S(V("n"), V("<dt>"))]], "sub": [["k", SUB("arr", V("m"))]],
+              "ifexpr": [["k", IF(V("a"), V("b"), V("n"))]]}[sh["kw"]]
+        lhs, f = {"acall0": ([], "<func>f"), "acall1": (["a"], "<func>f"), "acall2": (["a", "b"], "<func>g2")}[k]
+        st = acall(lhs, f, [_expr(sh["rhs"])], kw=kw if f == "<func>f" else [])
+    elif k == "yield":
+        st = yield_(_expr(sh["rhs"]), time={"t": V("<t>"), "t_plus_dt": S(V("<t>"), V("<dt>")), "var": V("m")}[sh["time"]])
+    elif k == "fail":
+        st = {"op": "fail"}
+    else:
+        st = {"op": "switch", "to": "p1"}
+    return ([if_(guard)] if guard else []) + [st] + ([{"op": "endif"}] if guard else [])
+
+
+def grammar_programs(chk):
+    res = tlc.run_tlc("StmtGen", workers=1, timeout=600)
+    chk.add_tlc(res)
+    shapes = list(res.json_lines("GEN"))
+    if len(shapes) < 1000:
+        raise tlc.MachineryError("StmtGen produced %d shapes" % len(shapes))
+    return [shape_calls(sh) for sh in shapes], len(shapes)
+
+
 class RecStore(dict):
     """Variable store that records which names are touched."""
 
@@ -146,6 +194,8 @@ def run(chk):
     rng = random.Random(chk.seed)
     alpha = alphabet(chk.tier)
     programs, _ = gen.tlc_programs(alpha, 3 if chk.quick else 4, chk=chk)
+    gprogs, nshapes = grammar_programs(chk)
+    programs = gprogs + programs
     seen = {}
     sts = stores(rng)
     for calls in programs:
@@ -183,11 +233,12 @@ def run(chk):
         "distinct_nontrivial": sum(1 for c in cases if len({tuple(o["reads"]) for o in c["obs"]}) > 1
                                    or len(c["dreads"]) >= 2),
         "rule": "statements = distinct statements the real CodeBuilder produces for all ProgGen behaviours of "
-                "depth <= %d over a %d-call typed catalogue (guards included), each executed by the real "
+                "depth <= %d over a %d-call typed catalogue (guards included) plus every well-formed shape of the "
+                "statement grammar StmtGen.tla (kind x rhs form x assignee form x loop nest x guard x keyword x time), each executed by the real "
                 "interpreter in 3 stores; non-trivial = at least two declared reads or store-dependent accesses"
                 % (3 if chk.quick else 4, len(alpha)),
         "exhaustive": True, "exhaustive_scope": "all catalogue statements under all catalogue guards (nesting <= 2)",
-        "statements": len(cases), "observations": nobs,
+        "statements": len(cases), "observations": nobs, "grammar_shapes": nshapes,
         "observations_with_exception": sum(1 for c in cases for o in c["obs"] if o["err"]),
         "impl_model_conformant": not drift,
         "static_semantics_drift": [cases[k]["text"] for k in drift][:5],
